@@ -95,6 +95,7 @@ class _Instance:
         Returns `self` to aid in method-chaining use-cases."""
         from .bundle import AnonymousBundle
 
+        _assert_editable(self)
         if isinstance(conn, Dict):
             # Special-case dictionaries of connectables into Anon Bundles
             conn = AnonymousBundle(**conn)
@@ -117,6 +118,7 @@ class _Instance:
         Returns the formerly-connected `Connectable`.
         Raises a KeyError if the port is not connected."""
 
+        _assert_editable(self)
         conn = self.conns.pop(portname)
         conn._connected_ports.remove(_get_connref(self, portname))
         return conn
@@ -131,6 +133,7 @@ class _Instance:
         but allows for in-place modification of the `conns` dict, e.g. while iterating over its items.
         """
 
+        _assert_editable(self)
         connref = _get_connref(self, portname)
         # Get a reference to the old connection in the `conns` dict, without removing it
         old = self.conns[portname]
@@ -139,6 +142,15 @@ class _Instance:
         self.conns[portname] = conn
         conn._connected_ports.add(connref)
         return old
+
+
+def _assert_editable(inst: "_Instance") -> None:
+    """Raise if `inst` lives in a `Module` that has been elaborated.
+    Such a module has been checked, and refuses additions; its connections are as final."""
+    parent = getattr(inst, "_parent_module", None)
+    if parent is not None and getattr(parent, "_elaborated", None) is not None:
+        msg = f"Cannot change the connections of {inst}: {parent} has been elaborated."
+        raise RuntimeError(msg)
 
 
 def _mult(inst: "Instance", other: int) -> "InstanceArray":
